@@ -587,6 +587,8 @@ def random_machine(rng: random.Random, max_nodes=10, max_depth=4, features=None)
             x.on.append(("", ts))
         if f["ondone"] and x.kind in ("compound", "parallel") and x.idx != 0 and rng.random() < 0.5:
             x.ondone = rand_trans(x.idx, "done.state." + am.sid(x.idx))
+            if not am.trans_json(x.ondone):
+                x.ondone = None   # an empty onDone object is "no onDone" to the parser
     if rng.random() < 0.3:
         am.output = rng.randint(10, 19)
     return am, events
